@@ -20,6 +20,14 @@ Check (alloc_preserves_live : forall chunk v f a f',
              nth_error (slots f') (cursor f) = Some {| sid := a; live := true; sval := v |}) /\
   (forall i, i <> cursor f -> i < length (slots f) -> nth_error (slots f') i = nth_error (slots f) i) /\
   cursor_free f').
+Check (Safe_collection : forall c h r h2,
+  full_mark marker_par h r = Ok h2 ->
+  forall x s, reach h (all_roots r) x -> lookup h x = Some s ->
+  exists s',
+    lookup {| boxes := if Nat.ltb (c_reset_limit c) (grow_cnt (boxes h2))
+                       then fl_compact (c_chunk c) (boxes h2) else fl_grow (c_chunk c) (boxes h2);
+              vecs := vecs h2; stale := stale h2 |} x = Some s' /\
+    sval s' = sval s /\ live s' = true).
 Check (recycle_old_refuted :
   exists fill st,
     (forall o, In o fill -> exists e, o = OAllocBox false RsStack 0 e) /\
@@ -35,4 +43,5 @@ Print Assumptions mark_complete.
 Print Assumptions mark_keeps_contents.
 Print Assumptions mark_fuel_suffices.
 Print Assumptions alloc_preserves_live.
+Print Assumptions Safe_collection.
 Print Assumptions recycle_old_refuted.
